@@ -1,11 +1,14 @@
 package pb
 
 import (
+	"io"
+
+	naslogger "free5gclib/nas/logger"
+	"github.com/sirupsen/logrus"
 	"bytes"
 	"encoding/base64"
 	"encoding/hex"
 	"fmt"
-	"io"
 	"os"
 
 	"free5gclib/nas"
@@ -27,6 +30,55 @@ func hx(s string) []byte {
 func genBytes(t *rapid.T, n int, label string) []byte {
 	return rapid.SliceOfN(rapid.Byte(), n, n).Draw(t, label)
 }
+
+
+// genPayload: message octets. Mostly uniform; one case in five structured the way real NAS contents are — long runs of
+// one value (zero padding, 0xFF fillers), a few non-zero octets in a zero field, the same block repeated — so that
+// whole 4/8/16-octet blocks are zero or equal to their neighbours.
+func genPayload(t *rapid.T, n int, label string) []byte {
+	if n == 0 {
+		return []byte{}
+	}
+	switch rapid.IntRange(0, 9).Draw(t, label+"_shape") {
+	case 0:
+		b := make([]byte, n)
+		fill := rapid.SampledFrom([]byte{0x00, 0x00, 0xff, 0x2b}).Draw(t, label+"_fill")
+		for i := range b {
+			b[i] = fill
+		}
+		k := rapid.IntRange(0, 6).Draw(t, label+"_marks")
+		for i := 0; i < k; i++ {
+			b[rapid.IntRange(0, n-1).Draw(t, label+"_markpos")] = rapid.Byte().Draw(t, label+"_mark")
+		}
+		if rapid.Bool().Draw(t, label+"_head") {
+			b[0] = rapid.ByteRange(1, 255).Draw(t, label+"_head0")
+		}
+		return b
+	case 1:
+		blk := rapid.SliceOfN(rapid.Byte(), 1, 16).Draw(t, label+"_blk")
+		b := make([]byte, n)
+		for i := range b {
+			b[i] = blk[i%len(blk)]
+		}
+		return b
+	}
+	return rapid.SliceOfN(rapid.Byte(), n, n).Draw(t, label)
+}
+
+// withNASLogLevel runs f with the NAS library's logger at the given logrus level (output discarded) and restores it.
+// The emulator never changes the level; the results of the library must not depend on it all the same.
+func withNASLogLevel(level string, f func()) {
+	lg := naslogger.SecurityLog.Logger
+	old, oldOut := lg.GetLevel(), lg.Out
+	if lv, err := logrus.ParseLevel(level); err == nil && level != "" {
+		lg.SetLevel(lv)
+		lg.SetOutput(io.Discard)
+		defer func() { lg.SetLevel(old); lg.SetOutput(oldOut) }()
+	}
+	f()
+}
+
+var logLevels = []string{"", "", "", "", "", "debug", "trace", "error"}
 
 // gen128: uniform 128-bit value plus the edge patterns named in DESIGN §5 (all-00, all-FF, single bit).
 func gen128(t *rapid.T, label string) []byte {
@@ -133,17 +185,17 @@ func genULMsg(t *rapid.T, label string) ulMsgSpec {
 		m.Opt = rapid.IntRange(0, 3).Draw(t, label+"opt") // bit0: 5GMM capability, bit1: NAS message container
 		m.B, m.C = u8("cap0"), u8("cap1")
 		if m.Opt&2 != 0 {
-			m.Bytes2 = genBytes(t, genPadLen(t, label+"pad"), label+"container")
+			m.Bytes2 = genPayload(t, genPadLen(t, label+"pad"), label+"container")
 		}
 	case "RegistrationComplete", "SecurityModeComplete":
 		m.Opt = rapid.IntRange(0, 4).Draw(t, label+"opt") // 0: no container
 		if m.Opt != 0 {
-			m.Bytes1 = genBytes(t, genPadLen(t, label+"pad"), label+"container")
+			m.Bytes1 = genPayload(t, genPadLen(t, label+"pad"), label+"container")
 		}
 	case "AuthenticationResponse":
 		m.Bytes1 = genBytes(t, 16, label+"res")
 	case "AuthenticationResponseEAP":
-		m.Bytes1 = genBytes(t, 1+genPadLen(t, label+"pad"), label+"eap")
+		m.Bytes1 = genPayload(t, 1+genPadLen(t, label+"pad"), label+"eap")
 	case "AuthenticationFailure":
 		m.A = rapid.SampledFrom([]uint8{nasMessage.Cause5GMMSynchFailure, nasMessage.Cause5GMMMACFailure, nasMessage.Cause5GMMngKSIAlreadyInUse}).Draw(t, label+"cause")
 		m.Bytes1 = genBytes(t, 14, label+"auts")
@@ -314,7 +366,7 @@ func genDLMsg(t *rapid.T, label string) dlMsgSpec {
 		m.Bytes1 = genBytes(t, 10, label+"guti")
 		m.B, m.C = u8("sst"), u8("timer")
 		if m.Opt&16 != 0 {
-			m.Bytes2 = genBytes(t, 1+genPadLen(t, label+"pad"), label+"sor")
+			m.Bytes2 = genPayload(t, 1+genPadLen(t, label+"pad"), label+"sor")
 		}
 	case "ConfigurationUpdateCommand":
 		m.Opt = rapid.IntRange(0, 15).Draw(t, label+"opt")
@@ -325,7 +377,7 @@ func genDLMsg(t *rapid.T, label string) dlMsgSpec {
 		}
 	case "DLNASTransport":
 		m.A = uint8(rapid.IntRange(1, 6).Draw(t, label+"ctype"))
-		m.Bytes1 = genBytes(t, 1+genPadLen(t, label+"pad"), label+"container")
+		m.Bytes1 = genPayload(t, 1+genPadLen(t, label+"pad"), label+"container")
 		m.Opt = rapid.IntRange(0, 15).Draw(t, label+"opt")
 		m.B, m.C = u8("psi"), u8("cause")
 		if m.Opt&2 != 0 {
@@ -351,7 +403,7 @@ func genDLMsg(t *rapid.T, label string) dlMsgSpec {
 	case "GSM_EstablishmentAccept":
 		m.A, m.B = u8("psi"), u8("pti")
 		m.C = uint8(rapid.IntRange(1, 3).Draw(t, label+"ssc"))<<4 | uint8(rapid.IntRange(1, 5).Draw(t, label+"ptype"))
-		m.Bytes1 = genBytes(t, 1+genPadLen(t, label+"pad"), label+"qos")
+		m.Bytes1 = genPayload(t, 1+genPadLen(t, label+"pad"), label+"qos")
 		m.Bytes2 = genBytes(t, 11, label+"ambr_cause_addr")
 		m.Opt = rapid.IntRange(0, 3).Draw(t, label+"opt")
 	case "GSM_ReleaseCommand", "GSM_EstablishmentReject", "GSM_Status":
